@@ -261,6 +261,11 @@ def k_streams(ctx):
             line = 'cmorgan ' + ' '.join(map(str, sview_ints(m)))
             exp = real_chiral_morgan(m)
             kind = stereo_kind(m)
+            if kind == 'atom-label' and exp.startswith('ok'):
+                ao = m.atoms_order
+                lab = [ao[n] for n, a in m._atoms.items() if a._stereo is not None]
+                if len(set(lab)) == len(lab):
+                    kind = 'atom-label+centres-pairwise-inequivalent (theorem: = atoms_order)'
             if kind == 'atom-label' and exp.startswith('ok') and exp != real_order(m):
                 kind = 'atom-label+classes-split-by-configuration'
             add('cmorgan', line, exp, line, len(m) >= 2, (vname, kind))
